@@ -189,3 +189,18 @@ def lists_of(items, max_len):
     for n in range(max_len + 1):
         for t in itertools.product(items, repeat=n):
             yield list(t)
+
+
+def typed(_name, d):
+    return d
+
+
+def opt_key(d, key, present, value):
+    r = dict(d)
+    if present:
+        r[key] = value
+    return r
+
+
+def mk(_view, **fields):
+    return dict(fields)
